@@ -340,7 +340,7 @@ structure DammitResult where
   unicodeMarkup : Option PStr
   originalEncoding : Option Nat
   containsReplacement : Bool
-deriving Repr
+deriving Repr, DecidableEq
 
 /-- the guard of the second pass negated: `if not u:` (dammit.py:817) — or `if u is None:` once C07's repair is in;
     which one the live source has is read by the translator -/
